@@ -127,7 +127,7 @@ def weightOp (args : List String) : Option String :=
     pure (fList (fOpt fF) (formulas.map (molecularWeight table amu)))) args
 
 /-- one operation of a cache session: `0 i` setPath | `1 i m` addFile | `2 i m` removeFile | `3 m` register | `4 m` load |
-    `5` clear | `6` ask -/
+    `5` clear | `6` ask | `7 ms` force_active -/
 def cacheOpP : P CacheOp := do
   let tag ← nat
   match tag with
@@ -150,6 +150,9 @@ def cacheOpP : P CacheOp := do
     pure (.load m)
   | 5 => pure .clear
   | 6 => pure .ask
+  | 7 => do
+    let ms ← listOf strTok
+    pure (.force ms)
   | _ => failure
 
 /-- `c10.session nDirs ops` → the molecules `find_list_of_molecules()` returns after the history `ops`, starting from
